@@ -12,7 +12,8 @@
 (* and its bookkeeping, computes the documented selection.  The defects     *)
 (* F1, F3, F4, F5, F6 and F16 of DESIGN.md are all disagreements between    *)
 (* this walk (as it was) and FoxMatch; the guards marked [Fn] below are the *)
-(* repairs.                                                                 *)
+(* repairs.  The hostname walk (lookupByDomain) is modelled the same way,    *)
+(* with F2 and the hostname form of F1.                                     *)
 (*                                                                          *)
 (* Positions are counts of characters already consumed (cm in the path,     *)
 (* cmn in the key of the current node), so "path[cm]" of the Go code is     *)
@@ -152,6 +153,83 @@ Backtrack(st, path) ==
        Outer([st EXCEPT !.skip = DropLast(@), !.pr = sk.n.r, !.cur = sk.n.c[sk.ci],
                         !.ps = Take(@, sk.pcnt), !.pcnt = IF On("F1") THEN sk.pcnt ELSE 0,                 \* [F1]
                         !.cm = sk.cm, !.pk = 0], path)
+
+\* ---- the hostname walk (lookupByDomain) ---------------------------------------------------------------
+\* Same state as the path walk; cm counts consumed host characters. The path below a hostname is looked up by
+\* LookupPath in a sub-context once the whole host is consumed [F2]; a trailing-slash candidate found there is kept
+\* (the first one only) and the walk backtracks to the skipped {param} alternatives.
+RECURSIVE HWalk(_, _, _), HInner(_, _, _, _), HChild(_, _, _), HAfter(_, _, _), HBack(_, _, _)
+
+HWalk(st, host, path) == IF st.cm < Len(host) THEN HInner([st EXCEPT !.cmn = 0], host, path, 0) ELSE HAfter(st, host, path)
+
+HInner(st, host, path, i) ==
+  LET key == st.cur.k IN
+  IF st.cm >= Len(host) \/ i >= Len(key) THEN HChild(st, host, path)
+  ELSE LET kc == key[i + 1]
+           hc == host[st.cm + 1]
+       IN IF kc = hc /\ hc # "{" THEN HInner([st EXCEPT !.cm = @ + 1, !.cmn = @ + 1], host, path, i + 1)
+          ELSE IF kc = "{" THEN
+             \* a {param}: one non-empty label (or label part)
+             LET rest == Rest(host, st.cm + 1)
+                 dot == Index(rest, ".")
+                 par == ParamsOf(st.cur)[st.pk + 1]
+             IN IF dot = 1 THEN HAfter(st, host, path)                               \* empty label
+                ELSE LET cm2 == IF dot = 0 THEN Len(host) ELSE st.cm + dot - 1
+                         skipk == IF par.end > 0 THEN par.end - st.cmn ELSE Len(key) - st.cmn
+                     IN HInner([st EXCEPT !.cm = cm2, !.cmn = @ + skipk, !.pcnt = @ + 1, !.pk = @ + 1,
+                                          !.ps = Append(@, <<par.name, SubSeq(host, st.cm + 1, cm2)>>)],
+                               host, path, i + skipk)
+          ELSE HAfter(st, host, path)                                                \* mismatch
+
+\* the key of the current node is consumed (or the host is): choose the next child
+HChild(st, host, path) ==
+  IF st.cm >= Len(host) THEN HAfter(st, host, path)
+  ELSE LET cur == st.cur
+           si == ChildIdx(cur, host[st.cm + 1])
+           pi == ParamChild(cur)
+       IN IF si = 0 THEN
+             IF pi # 0 THEN HWalk([st EXCEPT !.cur = cur.c[pi], !.pk = 0], host, path)
+             ELSE HAfter(st, host, path)
+          ELSE HWalk([st EXCEPT !.skip = IF pi # 0 THEN Append(@, [n |-> cur, cm |-> st.cm, pcnt |-> st.pcnt, ci |-> pi]) ELSE @,
+                                !.cur = cur.c[si], !.pk = 0], host, path)
+
+HAfter(st, host, path) ==
+  LET cur == st.cur IN
+  IF (On("F2") => st.cm = Len(host)) /\ st.cmn = Len(cur.k) THEN                                           \* [F2]
+     LET i == ChildIdx(cur, "/") IN
+     IF i = 0 THEN HBack(st, host, path)
+     ELSE LET sub == LookupPath(cur.c[i], path) IN
+          IF sub.n = <<>> THEN HBack(st, host, path)
+          ELSE IF sub.tsr THEN
+               HBack(IF st.tsr THEN st ELSE [st EXCEPT !.tsr = TRUE, !.tn = sub.n, !.tps = st.ps \o sub.tps], host, path)
+          ELSE Hit(sub.n, st.ps \o sub.ps)
+  ELSE HBack(st, host, path)
+
+HBack(st, host, path) ==
+  IF st.skip = <<>> THEN [n |-> st.tn, tsr |-> st.tsr, ps |-> st.ps, tps |-> st.tps]
+  ELSE LET sk == LastOf(st.skip) IN
+       HWalk([st EXCEPT !.skip = DropLast(@), !.cur = sk.n.c[sk.ci],
+                        !.ps = Take(@, sk.pcnt), !.pcnt = IF On("F1") THEN sk.pcnt ELSE 0,                 \* [F1]
+                        !.cm = sk.cm, !.pk = 0], host, path)
+
+LookupHost(root, host, path) ==
+  LET si == ChildIdx(root, host[1])
+      pi == ParamChild(root)
+      st0 == [cur |-> root, pr |-> <<>>, cm |-> 0, cmn |-> 0, pcnt |-> 0, pk |-> 0, skip |-> <<>>, ps |-> <<>>,
+              tsr |-> FALSE, tn |-> <<>>, tps |-> <<>>]
+  IN IF si = 0 THEN
+        IF pi = 0 THEN None ELSE HWalk([st0 EXCEPT !.cur = root.c[pi]], host, path)
+     ELSE HWalk([st0 EXCEPT !.cur = root.c[si],
+                           !.skip = IF pi # 0 THEN <<[n |-> root, cm |-> 0, pcnt |-> 0, ci |-> pi]>> ELSE <<>>], host, path)
+
+\* roots.lookup for one method: host is the request host with port and trailing dot already removed
+LookupRoot(root, host, path) ==
+  IF root.c = <<>> THEN None
+  ELSE IF Len(root.c) = 1 /\ root.c[1].k[1] = "/" THEN LookupPath(root.c[1], path)
+  ELSE LET byHost == IF host # <<>> THEN LookupHost(root, host, path) ELSE None IN
+       IF byHost.n # <<>> THEN byHost
+       ELSE LET i == ChildIdx(root, "/") IN
+            IF i = 0 THEN None ELSE LookupPath(root.c[i], path)
 
 \* the path-only entry point: the tree of a method that has only path routes is entered at its "/" child
 LookupTree(root, path) ==
